@@ -10,7 +10,7 @@ Good2 == Leaf(<<1, 2, 3, 4, 5>>)
 Good3 == <<<<3>>, <<Leaf(<<1, 2>>), Leaf(<<4, 5, 6>>)>>>>
 Good4 == <<<<9>>, << <<<<3, 6>>, <<Leaf(<<1, 2>>), Leaf(<<4, 5>>), Leaf(<<7, 8>>)>>>>,
                     <<<<12, 15>>, <<Leaf(<<10, 11>>), Leaf(<<13, 14>>), Leaf(<<16, 17>>)>>>> >>>>
-Good5 == <<<<>>, <<Leaf(<<1, 2, 3, 4, 5>>)>>>>          \* key-less root over one child (tolerated, see RootNonEmpty)
+Good5 == <<<<>>, <<Leaf(<<1, 2, 3, 4, 5>>)>>>>          \* key-less internal root over one child (finding F35)
 BadOver == Leaf(<<1, 2, 3, 4, 5, 6>>)                   \* more than 2t-1 keys
 BadUnder == <<<<3>>, <<Leaf(<<1>>), Leaf(<<4, 5>>)>>>>  \* non-root node below t-1
 BadKids == <<<<3>>, <<Leaf(<<1, 2>>)>>>>                \* k keys, k children
@@ -19,7 +19,7 @@ BadDup == <<<<3>>, <<Leaf(<<1, 3>>), Leaf(<<4, 5>>)>>>>
 BadDepth == <<<<3, 8>>, <<Leaf(<<1, 2>>), <<<<6>>, <<Leaf(<<4, 5>>), Leaf(<<7, 7>>)>>>>, Leaf(<<9, 10>>)>>>>
 
 ASSUME WellFormed(Good1, 3) /\ WellFormed(Good2, 3) /\ WellFormed(Good3, 3) /\ WellFormed(Good4, 3)
-ASSUME WellFormed(Good5, 3) /\ ~RootNonEmpty(Good5) /\ RootNonEmpty(Good4) /\ RootNonEmpty(Good1)
+ASSUME ~WellFormed(Good5, 3) /\ ~RootNonEmpty(Good5) /\ RootNonEmpty(Good4) /\ RootNonEmpty(Good1)
 ASSUME ~WellFormed(BadOver, 3) /\ WellFormed(BadOver, 4)
 ASSUME ~WellFormed(BadUnder, 3) /\ ~WellFormed(BadKids, 3) /\ ~WellFormed(BadOrder, 3) /\ ~WellFormed(BadDup, 3)
 ASSUME ~WellFormed(BadDepth, 3)
